@@ -25,8 +25,13 @@ pub struct PaddingFactory {
 /// Largest record payload size a scheme line can request (frame length fields are 16 bits)
 const MAX_RECORD_PAYLOAD_SIZE: i64 = u16::MAX as i64;
 
-/// Global padding factory
+/// Built-in padding factory (lazily created from `DEFAULT_PADDING_SCHEME`)
 static DEFAULT_FACTORY: std::sync::OnceLock<Arc<PaddingFactory>> = std::sync::OnceLock::new();
+
+/// Scheme pushed by a server (`UpdatePaddingScheme`); replaces the built-in default
+/// for the rest of the process and can be replaced again by a later push
+static PUSHED_FACTORY: std::sync::RwLock<Option<Arc<PaddingFactory>>> =
+    std::sync::RwLock::new(None);
 
 impl PaddingFactory {
     /// Create a new PaddingFactory from raw scheme bytes
@@ -56,6 +61,9 @@ impl PaddingFactory {
     /// with creating a new factory. This returns a shared singleton instance.
     #[allow(clippy::should_implement_trait)]
     pub fn default() -> Arc<Self> {
+        if let Some(pushed) = Self::pushed() {
+            return pushed;
+        }
         DEFAULT_FACTORY
             .get_or_init(|| {
                 Arc::new(
@@ -69,9 +77,19 @@ impl PaddingFactory {
     /// Update the default padding factory
     pub fn update_default(raw_scheme: &[u8]) -> Result<(), String> {
         let factory = Arc::new(Self::new(raw_scheme)?);
-        DEFAULT_FACTORY
-            .set(factory)
-            .map_err(|_| "failed to update default factory".to_string())
+        let mut pushed = PUSHED_FACTORY
+            .write()
+            .unwrap_or_else(|poisoned| poisoned.into_inner());
+        *pushed = Some(factory);
+        Ok(())
+    }
+
+    /// The scheme installed by the last `update_default`, if any
+    pub fn pushed() -> Option<Arc<Self>> {
+        PUSHED_FACTORY
+            .read()
+            .unwrap_or_else(|poisoned| poisoned.into_inner())
+            .clone()
     }
 
     /// Get the stop value
